@@ -51,15 +51,24 @@ def norm_body(f, rename):
         for a, b in rename.items():
             s = s.replace(a, b)
         return s
+    def is_assert(b):
+        return any(ev['k'] == 'call' and '__assert_fail' in pstr(ev['e'][1]) for ev in b['ev'])
+    assert_guards = set()     # blocks whose branch only decides whether an assertion fires: not behaviour (absent under NDEBUG)
+    for bid in f.reach():
+        b = f.blocks[bid]
+        if b.get('cond') is not None and any(s is not None and is_assert(f.blocks[s]) for s in b['succ']):
+            assert_guards.add(bid)
     for ev in f.events(('st', 'decl', 'ret', 'call')):
         e = ev.get('e')
+        if ev['k'] == 'call' and '__assert_fail' in pstr(e[1]):
+            continue
         if ev['k'] == 'decl':
             out.append(('decl', ev['n'], nm(e) if e is not None else ''))
         elif e is not None:
             out.append((ev['k'], nm(e)))
     for bid in f.reach():
         c = f.blocks[bid].get('fullcond')
-        if c is not None:
+        if c is not None and bid not in assert_guards:
             out.append(('cond', nm(c)))
     return sorted(out)
 
